@@ -19,6 +19,7 @@ import (
 	"go/ast"
 	"go/format"
 	"go/parser"
+	"go/printer"
 	"go/token"
 	"os"
 	"path/filepath"
@@ -29,6 +30,7 @@ import (
 const (
 	vschedPath = "github.com/rqlite/rqlite/v10/internal/verifvsched"
 	vsyncPath  = "github.com/rqlite/rqlite/v10/internal/verifvsync"
+	vfsPath    = "github.com/rqlite/rqlite/v10/internal/verifvfs"
 )
 
 var (
@@ -39,6 +41,8 @@ var (
 	tmpCount int
 	noSync   bool
 	noSelect bool
+	crash    bool // E-CRASH mode: only verifvfs.Point before every statement that contains a call
+	usedVfs  bool
 	done     = map[ast.Node]bool{} // statement lists already rewritten (including synthesized ones)
 )
 
@@ -48,7 +52,11 @@ func main() {
 	ms := flag.String("methods", "", "comma-separated method names whose calls get a scheduling point (e.g. Load,Store,Is,Set)")
 	flag.BoolVar(&noSync, "nosync", false, "do not replace import sync")
 	flag.BoolVar(&noSelect, "noselect", false, "do not rewrite select statements (only put a point before them)")
+	flag.BoolVar(&crash, "crash", false, "crash-image mode: put verifvfs.Point(label) before every statement containing a call; nothing else is rewritten")
 	flag.Parse()
+	if crash {
+		noSync, noSelect = true, true
+	}
 	for _, m := range strings.Split(*ms, ",") {
 		if m != "" {
 			methods[m] = true
@@ -106,6 +114,9 @@ func main() {
 	}
 	// expression-level rewrites first (AfterFunc), then statement lists
 	ast.Inspect(f, func(n ast.Node) bool {
+		if crash {
+			return false
+		}
 		if c, ok := n.(*ast.CallExpr); ok && isSel(c.Fun, "time", "AfterFunc") && len(c.Args) == 2 {
 			usedSch = true
 			c.Fun = sel("verifvsched", "AfterFunc")
@@ -133,9 +144,15 @@ func main() {
 	if usedSch {
 		addImport(f, "verifvsched", vschedPath)
 	}
+	if usedVfs {
+		addImport(f, "verifvfs", vfsPath)
+	}
 	var buf bytes.Buffer
 	buf.WriteString(header)
 	if err := format.Node(&buf, fset, f); err != nil {
+		var raw bytes.Buffer
+		printer.Fprint(&raw, fset, f)
+		os.WriteFile(*out+".raw", raw.Bytes(), 0o644)
 		die(err)
 	}
 	if err := os.WriteFile(*out, buf.Bytes(), 0o644); err != nil {
@@ -291,8 +308,71 @@ func needsPoint(s ast.Stmt) bool {
 	return found
 }
 
+// hasCall reports whether stmt itself (its own expressions, not nested blocks
+// or function literals) contains a call other than a conversion-looking
+// builtin; used by crash mode, where every call may reach the file system.
+func hasCall(s ast.Stmt) bool {
+	found := false
+	visit := func(n ast.Node) bool {
+		if found || n == nil {
+			return false
+		}
+		switch x := n.(type) {
+		case *ast.FuncLit, *ast.BlockStmt:
+			return false
+		case *ast.CallExpr:
+			if id, ok := x.Fun.(*ast.Ident); ok {
+				switch id.Name {
+				case "len", "cap", "append", "make", "new", "string", "int", "int64", "uint64", "uint32", "int32", "byte", "float64", "copy", "min", "max", "panic", "recover", "delete":
+					return true
+				}
+			}
+			found = true
+		}
+		return !found
+	}
+	switch x := s.(type) {
+	case *ast.IfStmt:
+		if x.Init != nil {
+			ast.Inspect(x.Init, visit)
+		}
+		ast.Inspect(x.Cond, visit)
+	case *ast.ForStmt:
+		if x.Init != nil {
+			ast.Inspect(x.Init, visit)
+		}
+	case *ast.RangeStmt:
+		ast.Inspect(x.X, visit)
+	case *ast.SwitchStmt:
+		if x.Init != nil {
+			ast.Inspect(x.Init, visit)
+		}
+		if x.Tag != nil {
+			ast.Inspect(x.Tag, visit)
+		}
+	case *ast.TypeSwitchStmt, *ast.LabeledStmt, *ast.BlockStmt, *ast.SelectStmt, *ast.CaseClause, *ast.CommClause:
+	default:
+		ast.Inspect(s, visit)
+	}
+	return found
+}
+
+func crashPoint(p token.Pos) ast.Stmt {
+	usedVfs = true
+	return &ast.ExprStmt{X: call(sel("verifvfs", "Point"), lit(label(p)))}
+}
+
 func rewriteList(list []ast.Stmt) []ast.Stmt {
 	var out []ast.Stmt
+	if crash {
+		for _, s := range list {
+			if hasCall(s) {
+				out = append(out, crashPoint(s.Pos()))
+			}
+			out = append(out, s)
+		}
+		return out
+	}
 	for _, s := range list {
 		switch x := s.(type) {
 		case *ast.GoStmt:
